@@ -45,6 +45,14 @@ def excl_delete(tr, path, missing):
     v = tr.variant_known(path, ())
     if not (isinstance(v, str) and v.endswith("Expr::Unary")):
         return None
+    if delete_polarity(tr, path) is True:
+        return "operand of `delete` (documented exclusion)"
+    return None
+
+
+def delete_polarity(tr, path):
+    """True: the path runs only for `delete x`; False: only for other unary operators; None: not decided by
+    a conjunct of the path condition"""
     from . import gate as _gate
 
     for c in path.conds:
@@ -62,10 +70,38 @@ def excl_delete(tr, path, missing):
             fields = [s for s in sides if s.get("k") == "Field" and s["field"] == "op"]
             is_delete = any((hir.peel(s).get("res", {}).get("ctor_path") or "").endswith("UnaryOp::Delete") or (p or "").endswith("UnaryOp::Delete") for s, p in zip(sides, consts))
             if is_delete and fields:
-                equal = (e["op"] == "Eq") == c["v"]
-                if equal:
-                    return "operand of `delete` (documented exclusion)"
+                return (e["op"] == "Eq") == c["v"]
     return None
+
+
+def rule_delete_kept(check, rule, visitor):
+    """The operand of `delete` must stay the reference it is: `delete a?.b` lowered to a conditional, or
+    `delete (x = a, f(x.b))`, evaluates to true without deleting anything.  Whatever descends into a
+    unary expression with the rewriting visitor does so only when the operator is not `delete`."""
+    prog = check.prog
+    graph = AdtGraph(prog.adts)
+    check.rule(rule, "in %s::visit_mut_expr, every path that descends into a unary expression with the rewriting visitor carries the conjunct op != Delete (the operand of `delete` is a reference, not a value: instrumenting or lowering it changes what is deleted)" % visitor)
+    ovs = [f for f in overrides_of(prog, visitor) if f.name == "visit_mut_expr"]
+    if not ovs:
+        raise AnchorMissing("%s::visit_mut_expr not found" % visitor)
+    n = 0
+    for f in ovs:
+        tr = Traversal(prog, f, graph)
+        for p in [p for p in tr.paths(f.body, tr.initial_env()) if Traversal.feasible(p)]:
+            v = tr.variant_known(p, ())
+            if not (isinstance(v, str) and v.endswith("Expr::Unary")):
+                continue
+            n += 1
+            desc = [e for e in p.effects if e["kind"] in ("with", "children") and e["vty"] == tr.visitor_ty_name()]
+            pol = delete_polarity(tr, p)
+            k = "%s/%s/%s" % (rule, short(f), {True: "delete", False: "other-operators", None: "any-operator"}[pol])
+            if p.unknown:
+                check.bad(rule, k, hir.loc(f.rec), "cannot enumerate paths: %s" % "; ".join(p.unknown))
+            elif desc and pol is not False:
+                check.bad(rule, k, hir.loc(desc[0]["node"]), "the rewriting visitor descends into a unary expression when %s, which includes `delete x`: the operand of delete is rewritten (an optional chain under it is lowered to a conditional, a call is hoisted into a sequence) and the deletion does not happen" % path_conds_str(p))
+            else:
+                check.ok(rule, k, hir.loc(f.rec), "%s when %s" % ("descends" if desc else "does not descend with the rewriting visitor", path_conds_str(p)))
+    check.floor(rule, "paths through the Unary arm", n, 1)
 
 
 def _tpl_conj_kind(e):
